@@ -104,10 +104,11 @@ class RecRelay(Relay):
         return None
 
 
-def make_env(k, nrcpt, chunks, sender):
+def make_env(k, nrcpt, chunks, sender, pad=0):
     rcpts = ['r%d.%d@example.com' % (k, i) for i in range(nrcpt)]
     env = Envelope('s%d@example.com' % k if sender else '', rcpts)
-    body = (b'%d:' % k + b'x' * 61 + b'\n') * chunks
+    # (pad: the stored file is read back in chunks of 64 bytes - its size takes every residue, also none)
+    body = (b'%d:' % k + b'x' * 61 + b'\n') * chunks + b'p' * pad
     env.parse(b'X-Tag: t%d\r\nSubject: s\r\n\r\n' % k + body)
     env.receiver = 'r'
     env.timestamp = 1.0
@@ -201,7 +202,7 @@ def run_history(ops, same_tmp):
                 if k >= 4:
                     history.append(None)
                     continue
-                env = make_env(k, op[1], op[2], op[3])
+                env = make_env(k, op[1], op[2], op[3], int(op[5]) % 64 if len(op) > 5 else 0)
                 tag = 't%d' % k
                 flat = env.flatten()
                 ts = float(op[4])
@@ -578,7 +579,7 @@ _qcase = st.fixed_dictionaries({
 
 
 _w = st.tuples(st.just('write'), st.integers(1, 4), st.integers(1, 4), st.booleans(),
-               st.sampled_from([5.0, 1000.5, 0.0])).map(list)
+               st.sampled_from([5.0, 1000.5, 0.0]), st.integers(0, 63)).map(list)
 _op = st.one_of(
     _w,
     st.tuples(st.just('incr'), st.integers(0, 3)).map(list),
@@ -614,6 +615,10 @@ def run_shard(ctx):
                    case=lambda: {'ops': ops, 'same_tmp': same_tmp, 'crash_points': ncrash}, failures=fails)
     hyp.drive(ctx, _case, one, ctx.n(240, 5000))
     hyp.drive(ctx, _case_rounds(), one, ctx.n(96, 2000), salt=2)
+    # every size of the stored file modulo the read chunk (64 bytes here): written, updated, read back
+    for pad in range(64):
+        if ctx.mine(pad):
+            one(([['write', 1, 1, True, 5.0, pad], ['incr', 0]], bool(pad % 2)))
 
     def qone(spec):
         fails, ncrash, nnt = run_queue_history(spec)
@@ -645,7 +650,8 @@ def replay(case):
     for o in case.get('ops', []):
         try:
             if o[0] == 'write':
-                ops.append(['write', max(1, min(4, int(o[1]))), max(1, min(4, int(o[2]))), bool(o[3]), float(o[4])])
+                ops.append(['write', max(1, min(4, int(o[1]))), max(1, min(4, int(o[2]))), bool(o[3]), float(o[4])] +
+                           ([int(o[5]) % 64] if len(o) > 5 else []))
             elif o[0] in ('incr', 'remove'):
                 ops.append([o[0], int(o[1])])
             elif o[0] in ('scan', 'ioerr'):
